@@ -2,7 +2,7 @@
    hand-written models the theorems are about.  An edit of one of these functions in the source
    changes the generated definition and breaks the corresponding lemma here. *)
 From Coq Require Import ZArith List Lia Bool.
-From Sketchnu Require Import Machine BitLemmas Consts KernelsHashes Hashes HashSpec HashProofs.
+From Sketchnu Require Import Machine BitLemmas Consts KernelsHashes Hashes HashSpec HashProofs HashProofsMurmur.
 Open Scope Z_scope.
 
 (* ---------------- hashes.py ---------------- *)
